@@ -21,9 +21,14 @@ CONSTANTS
   SNum = {3}
   SDen = {1,10}
   Companies = {"alone", "default", "user"}
+  Samplers = {"direct", "nestle", "multinest", "polychord", "dypolychord"}
+  SamplerCompanies = {"user"}
+  SamplerRoutes = {"set_prior", "default"}
+  Cube = "exact"
   Export = TRUE
 INVARIANT ZOk
 INVARIANT DeliveryInv
+INVARIANT SamplerInv
 INVARIANT RouteInv
 INVARIANT DefaultSpaceInv
 INVARIANT UserPriorInForceInv
